@@ -52,6 +52,8 @@ pub mod decode;
 pub mod encode;
 pub mod metadata;
 pub mod stream;
+#[cfg(feature = "verif-hooks")]
+pub mod verif;
 
 /// A unified FLAC error
 #[derive(Debug)]
